@@ -11,7 +11,7 @@ LEVEL = "model_checking"
 NEW = [F("a", 1, "int64"), F("b", 2, "fixed32"), F("c", 3, "double"), F("d", 4, "string"), F("e", 5, "sint32", "repeated"),
        F("f", 6, "message", msg="Inner"), F("g_u", 7, "uint32", "oneof", group="g"), F("g_s", 8, "string", "oneof", group="g"),
        F("h", 9, "map", "map", kkind="string", vkind="int32"), F("i", 10, "message", "repeated", msg="Inner"),
-       F("j", 2000, "sfixed64", "optional"), F("k", 12, "bytes")]
+       F("j", 2000, "sfixed64", "optional"), F("k", 2**29 - 1, "bytes")]      # k: the largest legal field number
 
 
 def I(n):
@@ -105,7 +105,8 @@ def run(ctx):
     ctx.rule = ("(i) newer schema N (12 fields over the four wire types, nested, repeated packed, repeated message, map, oneof, optional, a "
                 "high field number) x older schemas obtained by deleting a subset of fields x a pool of values: old reader parses, re-emits, "
                 "new reader and the reference read the re-emission; (ii) LegalEnc encodings with up to 2 unknown fields at any position: "
-                "betterproto parses and re-emits.  non-trivial = at least one dropped field carries data / one unknown field present")
+                "betterproto parses and re-emits; (iii) histories with several parses into one object (unknown fields, incl. the largest legal "
+                "field number, in each), assignments and copies in between.  non-trivial = at least one dropped field carries data / one unknown field present")
     ctx.assumptions = ["unknown fields are compared as raw bytes in arrival order through the spec's decoder (SpecDecode(...).unk), not through "
                        "betterproto's private attribute"]
     names = [f["name"] for f in NEW]
@@ -154,3 +155,7 @@ def run(ctx):
     ctx.notes["encodings_with_unknown_fields"] = len(withunk)
     ctx.notes["older_schemas"] = len(subs)
     ctx.validate("Trace_Codec", ev2, header={"schema": small}, shard=6000)
+    # (iii) along histories: several parses into one object (merging partial updates), assignments, copies in between --
+    # after every call the re-emission carries every unknown field received so far, byte for byte, in arrival order
+    from .. import hist
+    hist.run_histories(ctx, ["TMix", "TOpt", "TOne", "TRep", "TImpl", "Node"], 500 if quick else 15000, 8, "unknown")
